@@ -72,8 +72,9 @@ def run(C, R):
                                'path [%s]' % (m['path'], pc), where(F, e), {'trace': trace_summary(path)})
                 # R2
                 for n, (i, e) in enumerate(bc):
-                    if e['name'] != 'pop' or any(d['k'] == 'drop' and d['val'] == e['ret'] for d in path.events):
-                        # a popped value that is dropped on the spot is the discard of the last receiver (C08.R1/R2)
+                    if e['name'] != 'pop' or not contains(path.ret, e['ret']):
+                        # a popped value that is not delivered (dropped on the spot, in whatever spelling) is the
+                        # discard of the last receiver: C08.R1/R2 judge that; R2 is about the receive path
                         continue
                     npop += 1
                     refill = [(k, q) for k, q in enumerate(path.events) if k > i and q['k'] == 'qop'
@@ -164,7 +165,8 @@ def run(C, R):
             from specs import TYPESTATE
             unl = set(v for tab in TYPESTATE[STATE].values() for v, linked in tab.items() if linked is False)
             nenq += fair_no_requeue(R, E, F, m, paths, own_node_roots(F, m), 'C09.R7', 'channel', None,
-                                    fair_only=False, unlinked=unl)
+                                    fair_only=False, unlinked=unl,
+                                    all_variants=set(v for tab in TYPESTATE[STATE].values() for v in tab))
         R.floor('C09.R7 enqueue-paths[%s]' % cfg, nenq, 2)
         R.floor('C09.R1 push-sites[%s]' % cfg, npush, 3)
         R.floor('C09.R2 pop-paths[%s]' % cfg, npop, 2)
